@@ -1,7 +1,76 @@
-(* C21 — property theorems (statements only; proofs are in Proofs_C21.v). *)
+(* C21 — property theorems (statements only; proofs are in Proofs_C21.v).
+
+   [prot] / [ign] are ARBITRARY predicates on offset-relative locations (the theorems hold for every
+   CONFIG_PROTECT / CONFIG_PROTECT_MASK / COLLISION_IGNORE configuration, every offset, every live
+   tree and every package); the model instantiates them with protect_filter / ignore_filter.
+   pkg_ok: the incoming package has one entry per location and ships no ._cfg… names. *)
 From Coq Require Import List NArith ZArith Bool.
 Import ListNotations.
 From Verif Require Import Base.Val C22.Model_C22 C21.Model_C21 C21.Spec_C21 C21.Proofs_C21.
+
+(* A live regular file under CONFIG_PROTECT (not masked, not ignored) whose content differs from the
+   incoming entry is not a location of the contents set handed to the merge, and is unchanged by it. *)
+Theorem never_overwritten :
+  forall (prot ign : str -> bool) (off : str) (fs inst : pmap) (P d : str) (n : node),
+    pkg_ok inst ->
+    protected_file prot ign off fs P d ->
+    incoming_differs inst P d n ->
+    ~ In P (map fst (pre_merge prot ign off fs inst)) /\
+    pm_get P (merge_fs fs (pre_merge prot ign off fs inst)) = Some (File d).
+Proof. exact never_overwritten_proof. Qed.
+Print Assumptions never_overwritten.
+
+(* The incoming entry is renamed to ._cfgNNNN_<name> beside the protected file, NNNN being the number
+   of an identical pending update if there is one, else non-negative and above every existing number
+   of a pending update of that name; the renamed entry is in the set handed to the merge. *)
+Theorem written_beside_with_numbering_rule :
+  forall (prot ign : str -> bool) (off : str) (fs inst : pmap) (P d : str) (n : node),
+    pkg_ok inst ->
+    protected_file prot ign off fs P d ->
+    incoming_differs inst P d n ->
+    let c := cfg_count fs P n in
+    let dest := pjoin (dirname P) (cfg_name c (basename P)) in
+    numbering_rule fs (dirname P) (basename P) n c /\
+    In ((dest, n), (P, n)) (renames prot ign off fs inst) /\
+    (newlocs_distinct prot ign off fs inst -> pm_get dest (pre_merge prot ign off fs inst) = Some n).
+Proof. exact written_beside_proof. Qed.
+Print Assumptions written_beside_with_numbering_rule.
+
+(* "Reusing the number" of an identical pending update means the destination IS that pending file:
+   a name the scan accepts ("._cfg" + four ASCII digits + "_" + name) is exactly the name generated for
+   its number, so no other pending update is touched. *)
+Theorem reuse_targets_identical_file :
+  forall (fs : pmap) (dir fname : str) (c : Z) (x : str) (content : node),
+    pending_update fs dir fname c x content ->
+    pjoin dir (cfg_name c fname) = pjoin dir x /\ content = live_at fs (pjoin dir (cfg_name c fname)).
+Proof. exact reuse_targets_identical_file_proof. Qed.
+Print Assumptions reuse_targets_identical_file.
+
+(* ... and after the merge the tree holds the incoming content under that name. *)
+Theorem incoming_content_beside :
+  forall (prot ign : str -> bool) (off : str) (fs inst : pmap) (P d : str) (n : node),
+    pkg_ok inst ->
+    newlocs_distinct prot ign off fs inst ->
+    protected_file prot ign off fs P d ->
+    incoming_differs inst P d n ->
+    n <> Dir ->
+    pm_get (pjoin (dirname P) (cfg_name (cfg_count fs P n) (basename P)))
+           (merge_fs fs (pre_merge prot ign off fs inst)) = Some n.
+Proof. exact incoming_content_beside_proof. Qed.
+Print Assumptions incoming_content_beside.
+
+(* The recorded contents (the install set after post_merge) keep the real name and not the ._cfg one. *)
+Theorem recorded_keeps_real_name :
+  forall (prot ign : str -> bool) (off : str) (fs inst : pmap) (P d : str) (n : node),
+    pkg_ok inst ->
+    newlocs_distinct prot ign off fs inst ->
+    protected_file prot ign off fs P d ->
+    incoming_differs inst P d n ->
+    let recorded := post_merge prot ign off fs inst (pre_merge prot ign off fs inst) in
+    pm_get P recorded = Some n /\
+    pm_get (pjoin (dirname P) (cfg_name (cfg_count fs P n) (basename P))) recorded = None.
+Proof. exact recorded_keeps_real_name_proof. Qed.
+Print Assumptions recorded_keeps_real_name.
 
 (* Unmerging (uninstall, or the unmerge half of a replace) never removes a protected file whose
    content differs from what the package recorded. *)
@@ -12,3 +81,50 @@ Theorem uninstall_keeps_modified :
     pm_get P (unmerge_fs fs (uninstall_set prot ign off fs recorded inst)) = Some (File d).
 Proof. exact uninstall_keeps_modified_proof. Qed.
 Print Assumptions uninstall_keeps_modified.
+
+(* The same two facts stated about Model_C21.run — the function the correspondence compares with the
+   real MergeEngine on every run — with the filters built from env.d, the extras and the live tree. *)
+Theorem run_install_never_overwrites :
+  forall (i : input) (P d : str) (n : node),
+    i_mode i = 0%N ->
+    pkg_ok (inst_of i) ->
+    protected_file (protI_of i) (ign_of i (i_fs i)) (i_off i) (i_fs i) P d ->
+    incoming_differs (inst_of i) P d n ->
+    pm_get P (o_fs (run i)) = Some (File d).
+Proof. exact run_install_never_overwrites_proof. Qed.
+Print Assumptions run_install_never_overwrites.
+
+Theorem run_uninstall_keeps_modified :
+  forall (i : input) (P d : str),
+    i_mode i = 2%N ->
+    protected_file (protU_of i) (ign_of i (i_fs i)) (i_off i) (i_fs i) P d ->
+    differs_from_recorded (with_off (i_off i) (i_old i)) P d ->
+    pm_get P (o_fs (run i)) = Some (File d).
+Proof. exact run_uninstall_keeps_modified_proof. Qed.
+Print Assumptions run_uninstall_keeps_modified.
+
+(* replace mode: neither the merge half nor the unmerge half touches a protected file that differs
+   from the incoming one ... *)
+Theorem run_replace_never_overwrites :
+  forall (i : input) (P d : str) (n : node),
+    i_mode i = 1%N ->
+    pkg_ok (inst_of i) ->
+    newlocs_distinct (protI_of i) (ign_of i (i_fs i)) (i_off i) (i_fs i) (inst_of i) ->
+    protected_file (protI_of i) (ign_of i (i_fs i)) (i_off i) (i_fs i) P d ->
+    incoming_differs (inst_of i) P d n ->
+    pm_get P (o_fs (run i)) = Some (File d).
+Proof. exact run_replace_never_overwrites_proof. Qed.
+Print Assumptions run_replace_never_overwrites.
+
+(* ... and the unmerge half keeps a protected file (of the tree as the merge half left it) that
+   differs from what the old package recorded. *)
+Theorem run_replace_keeps_modified :
+  forall (i : input) (P d : str),
+    i_mode i = 1%N ->
+    o_blocked (run i) = false ->
+    let fs1 := merge_fs (i_fs i) (pre_merge (protI_of i) (ign_of i (i_fs i)) (i_off i) (i_fs i) (inst_of i)) in
+    protected_file (protU_of i) (ign_of i fs1) (i_off i) fs1 P d ->
+    differs_from_recorded (with_off (i_off i) (i_old i)) P d ->
+    pm_get P (o_fs (run i)) = Some (File d).
+Proof. exact run_replace_keeps_modified_proof. Qed.
+Print Assumptions run_replace_keeps_modified.
